@@ -88,6 +88,7 @@ type Observer struct {
 	Disclosed map[string]int
 	// Versions, when set, gives per party the allowed versions as bits (1 = v2, 2 = v3)
 	Versions []int
+	skCache map[string]*SessionKeys
 	// SendsWS tells per party whether its policy appends whitespace tags; only then
 	// is a message containing the tag base judged as a tagged message
 	SendsWS []bool
@@ -454,7 +455,7 @@ func (o *Observer) obsData(m *ObsMsg, from int, header, body []byte) {
 		if priv == nil {
 			continue
 		}
-		sk := DeriveSession(priv, own, peer)
+		sk := o.derive(priv, own, peer)
 		if !bytes.Equal(DataMAC(sk.SendMAC, header, body, d), d.MAC) {
 			continue
 		}
@@ -506,7 +507,7 @@ func (o *Observer) PairKeys(party int, s *Session) []PairKey {
 			continue
 		}
 		for tid, tpub := range s.Pubs[1-role] {
-			sk := DeriveSession(priv, opub, tpub)
+			sk := o.derive(priv, opub, tpub)
 			out = append(out, PairKey{s, role, oid, tid, sk.SendMAC, sk.RecvMAC})
 		}
 	}
@@ -574,4 +575,18 @@ func (o *Observer) checkTagged(m *ObsMsg, from int, wire []byte) {
 	if known && (got2 != v2 || got3 != v3) {
 		m.issue("whitespace tag offers v2=%v v3=%v but the policy allows v2=%v v3=%v", got2, got3, v2, v3)
 	}
+}
+
+// derive memoises DeriveSession.
+func (o *Observer) derive(priv []byte, own, their *big.Int) *SessionKeys {
+	if o.skCache == nil {
+		o.skCache = map[string]*SessionKeys{}
+	}
+	k := string(own.Bytes()) + "|" + string(their.Bytes())
+	if sk, ok := o.skCache[k]; ok {
+		return sk
+	}
+	sk := DeriveSession(priv, own, their)
+	o.skCache[k] = sk
+	return sk
 }
